@@ -41,15 +41,20 @@ structure StackItem where
   ord : Nat
   deriving DecidableEq, Repr
 
+/-- Split a list at the LAST element satisfying `p` (`iter().rposition(..)` + `drain(index..)`):
+`some (before, from that element on)`, or `none` if no element satisfies `p`. -/
+def splitLast {α : Type} (p : α → Bool) : List α → Option (List α × List α)
+  | [] => none
+  | x :: xs =>
+    match splitLast p xs with
+    | some (kept, popped) => some (x :: kept, popped)
+    | none => if p x then some ([], x :: xs) else none
+
 /-- `Stack::pop_up_to` (`stack.rs:284`): split at the LAST item named `name` (`rposition`) into
 (kept, drained); `none` if there is none. The `open_name_counts` pre-check is an optimisation of the
 same test. The drained items are handed to the closure in list order (outermost first). -/
-def popUpTo (name : Name) : List StackItem → Option (List StackItem × List StackItem)
-  | [] => none
-  | x :: xs =>
-    match popUpTo name xs with
-    | some (kept, popped) => some (x :: kept, popped)
-    | none => if x.name = name then some ([], x :: xs) else none
+def popUpTo (name : Name) (items : List StackItem) : Option (List StackItem × List StackItem) :=
+  splitLast (fun it => decide (it.name = name)) items
 
 /-- `HtmlRewriteController` (`rewrite_controller.rs:35`); `vm = none` iff there are no selectors
 (`:52,76`). The VM is reduced to its stack (bottom first, like the `Vec`). -/
